@@ -84,7 +84,6 @@ m = {
     'checks': checks,
     'notes': 'Runtime monitoring only. Exit 0 = held on everything observed (KNOWN-FINDING lines allowed), 1 = VIOLATION line(s), 2 = broken/inconclusive (build failure, nothing observed, watchdog). known_findings.json lists genuine defects (fixed and known).',
 }
-if na:
-    m['not_applicable'] = na
+m['not_applicable'] = na  # empty: every listed property is decided by a runtime monitor (DESIGN.md section 7 states the limits)
 json.dump(m, open(os.path.join(V, 'MANIFEST.json'), 'w'), indent=1)
 print('claimed', sorted(built), 'unclaimed', [x['property_id'] for x in na])
